@@ -572,6 +572,16 @@ func c14Leaves(p *Prog, c *Check) {
 		efi, dfi := p.Info(ef), p.Info(df)
 		ecalls, efns := effCalls(p, ef)
 		dcalls, dfns := effCalls(p, df)
+		// a decoder that delegates to a sibling decoder of the package also makes that decoder's calls
+		for _, d := range append([]effCall{}, dcalls...) {
+			if !isCodecName(d.name) || strings.HasSuffix(d.name, "."+dec) {
+				continue
+			}
+			if sf, err := p.Func("keyper/shutterevents." + lastName2(d.name)); err == nil {
+				sc, _ := effCalls(p, sf)
+				dcalls = append(dcalls, sc...)
+			}
+		}
 		dfind := func(name string) []effCall {
 			var r []effCall
 			for _, d := range dcalls {
@@ -650,6 +660,39 @@ func c14Leaves(p *Prog, c *Check) {
 						} else {
 							used = append(used, "elements by "+shortCallee(en)+" (never empty)")
 						}
+					}
+				}
+			}
+		}
+		// list codecs: where the element encoder is the encoder of a scalar codec of this package, the
+		// elements must be decoded as strictly as that codec's decoder does (by calling it)
+		if joins {
+			for _, e := range ecalls {
+				if !nonEmptyEncoders[e.name] {
+					continue
+				}
+				for senc, sdec := range codecPairs {
+					if senc == enc || senc == "decimal" {
+						continue
+					}
+					sf, err := p.Func("keyper/shutterevents." + senc)
+					if err != nil {
+						continue
+					}
+					sc, _ := effCalls(p, sf)
+					only := len(sc) > 0
+					for _, x := range sc {
+						if x.name != e.name {
+							only = false
+						}
+					}
+					if !only {
+						continue
+					}
+					if len(dfind("keyper/shutterevents."+sdec)) == 0 {
+						diffs = append(diffs, fmt.Sprintf("the elements of %s are encoded exactly like %s encodes a single value, but %s does not decode them with %s: element strings %s rejects as malformed are accepted inside a list", enc, senc, dec, sdec, sdec))
+					} else {
+						used = append(used, "elements decoded by "+sdec)
 					}
 				}
 			}
